@@ -148,4 +148,104 @@ theorem rtItems : ∀ (xs : List S) (rest : List Tok), okItems xs = true →
         | (simp only [Stmt.items]; rw [← hts, h1']; simp only []; rw [h2'])
 end
 
+/-! ### consumption and the fuel bound -/
+theorem forHead_sound {ts : List Tok} {i c k r} (h : forHead ts = some (i, c, k, r)) :
+    ts = ppInit i ++ (ppOpt c ++ .semi :: (ppOpt k ++ .rp :: r)) := by
+  unfold forHead at h
+  split at h <;> first
+    | (simp at h; obtain ⟨rfl, rfl, rfl, rfl⟩ := h; simp [ppInit, ppOpt])
+    | simp at h
+
+theorem forHead_consumes {ts : List Tok} {i c k r} (h : forHead ts = some (i, c, k, r)) : r.length + 3 ≤ ts.length := by
+  rw [forHead_sound h]
+  cases i <;> cases c <;> cases k <;> simp [ppInit, ppOpt] <;> omega
+
+/-- a successful parse consumes at least one token -/
+structure Cons (f : Nat) : Prop where
+  stmt : ∀ ts s rest, stmt f ts = some (s, rest) → rest.length < ts.length
+  items : ∀ ts xs rest, items f ts = some (xs, rest) → rest.length < ts.length
+
+theorem cons_all : ∀ f, Cons f := by
+  intro f
+  induction f with
+  | zero => constructor <;> intros <;> simp_all [Stmt.stmt, Stmt.items]
+  | succ f ih =>
+    constructor
+    · intro ts s rest h
+      simp only [Stmt.stmt] at h
+      repeat' (split at h)
+      all_goals (try (simp at h; done))
+      all_goals (have hS := ih.stmt; have hI := ih.items; have hF := @forHead_consumes)
+      all_goals (first
+        | grind
+        | (simp at h; obtain ⟨_, rfl⟩ := h; have := hS _ _ _ ‹stmt _ _ = some _›; simp at this ⊢; omega))
+    · intro ts xs rest h
+      simp only [Stmt.items] at h
+      repeat' (split at h)
+      all_goals (try (simp at h; done))
+      all_goals (have hS := ih.stmt; have hI := ih.items)
+      all_goals (grind)
+
+theorem bound_step_stmt (n f g : Nat)
+    (hS : ∀ r x, r.length ≤ n → stmt f r = some x → stmt g r = some x)
+    (hI : ∀ r x, r.length ≤ n → items f r = some x → items g r = some x) :
+    ∀ ts x, ts.length ≤ n + 1 → stmt (f + 1) ts = some x → stmt (g + 1) ts = some x := by
+  have hC := (cons_all f).stmt
+  have hCI := (cons_all f).items
+  have hF := @forHead_consumes
+  intro ts x hl h
+  simp only [Stmt.stmt] at h ⊢
+  repeat' (split at h)
+  all_goals (try (simp at h; done))
+  all_goals (grind)
+
+theorem bound_step_items (n f g : Nat)
+    (hS : ∀ ts x, ts.length ≤ n + 1 → stmt f ts = some x → stmt g ts = some x)
+    (hI : ∀ r x, r.length ≤ n → items f r = some x → items g r = some x) :
+    ∀ ts x, ts.length ≤ n + 1 → items (f + 1) ts = some x → items (g + 1) ts = some x := by
+  have hC := (cons_all f).stmt
+  intro ts x hl h
+  simp only [Stmt.items] at h ⊢
+  repeat' (split at h)
+  all_goals (try (simp at h; done))
+  all_goals (grind)
+
+/-- **the recursion depth is bounded by the number of tokens**: whatever some fuel yields, fuel `2 · length + 1` yields
+(`2 · length + 2` for the items of a compound statement) -/
+theorem fuel_bound : ∀ n,
+    (∀ ts : List Tok, ts.length ≤ n → ∀ f x, stmt f ts = some x → stmt (2 * n + 1) ts = some x) ∧
+    (∀ ts : List Tok, ts.length ≤ n → ∀ f x, items f ts = some x → items (2 * n + 2) ts = some x) := by
+  intro n
+  induction n with
+  | zero =>
+    constructor
+    · intro ts hl f x h
+      have : ts = [] := List.eq_nil_of_length_eq_zero (by omega)
+      subst this
+      cases f <;> simp [Stmt.stmt] at h
+    · intro ts hl f x h
+      have : ts = [] := List.eq_nil_of_length_eq_zero (by omega)
+      subst this
+      cases f <;> simp [Stmt.items] at h
+  | succ n ih =>
+    obtain ⟨ihS, ihI⟩ := ih
+    have hstmt : ∀ ts : List Tok, ts.length ≤ n + 1 → ∀ f x, stmt f ts = some x → stmt (2 * (n + 1) + 1) ts = some x := by
+      intro ts hl f x h
+      cases f with
+      | zero => simp [Stmt.stmt] at h
+      | succ f =>
+        have := bound_step_stmt n f (2 * n + 2)
+          (fun r x hr h => (le_of_le (by omega : 2 * n + 1 ≤ 2 * n + 2)).stmt _ _ (ihS r hr f x h))
+          (fun r x hr h => ihI r hr f x h) ts x hl h
+        simpa [Nat.mul_add] using this
+    refine ⟨hstmt, ?_⟩
+    intro ts hl f x h
+    cases f with
+    | zero => simp [Stmt.items] at h
+    | succ f =>
+      have := bound_step_items n f (2 * n + 3)
+        (fun ts x hl h => by have := hstmt ts hl f x h; simpa [Nat.mul_add] using this)
+        (fun r x hr h => (le_of_le (by omega : 2 * n + 2 ≤ 2 * n + 3)).items _ _ (ihI r hr f x h)) ts x hl h
+      simpa [Nat.mul_add] using this
+
 end PsycheModel.Stmt
